@@ -25,6 +25,10 @@ pub enum Ty {
     Iter(Box<Ty>),
     /// `&T` inside wrapper bodies
     Ref(Box<Ty>),
+    /// a future with this output (not nameable)
+    Fut(Box<Ty>),
+    /// a stream with this item type (not nameable)
+    Stream(Box<Ty>),
 }
 
 impl Ty {
@@ -43,11 +47,12 @@ impl Ty {
             Ty::Tup(a, b) => format!("({}, {})", a.name(), b.name()),
             Ty::Iter(_) => "_".into(),
             Ty::Ref(t) => format!("&{}", t.name()),
+            Ty::Fut(_) | Ty::Stream(_) => "_".into(),
         }
     }
     pub fn depth(&self) -> usize {
         match self {
-            Ty::Opt(t) | Ty::Res(t) | Ty::Vec(t) | Ty::Iter(t) | Ty::Ref(t) => 1 + t.depth(),
+            Ty::Opt(t) | Ty::Res(t) | Ty::Vec(t) | Ty::Iter(t) | Ty::Ref(t) | Ty::Fut(t) | Ty::Stream(t) => 1 + t.depth(),
             Ty::Tup(a, b) => 1 + a.depth().max(b.depth()),
             _ => 0,
         }
@@ -143,6 +148,9 @@ pub enum Family {
     Sync,
     /// async macros with a sync chain closed by `-> ready` / `-> ok`
     AsyncClosed,
+    /// async macros over real futures and streams (FutureExt / TryFutureExt / StreamExt /
+    /// TryStreamExt methods); plain values inside wrapper bodies behave as in AsyncClosed
+    AsyncReal,
 }
 
 #[derive(Clone, Debug)]
@@ -157,6 +165,7 @@ pub struct ChainBranch {
 
 #[derive(Clone, Debug)]
 pub struct ChainProg {
+    pub fam: Family,
     pub mac: String,
     pub branches: Vec<ChainBranch>,
     /// (place, inner macro, depth) of every nested invocation (C17)
@@ -331,6 +340,12 @@ impl<'a> CG<'a> {
                 }
             }
         }
+        // nested future / stream: flatten first
+        if let Ty::Fut(t) | Ty::Stream(t) = cur {
+            if matches!(**t, Ty::Fut(_) | Ty::Stream(_)) {
+                return self.try_comb(Comb::Flatten, cur, false, false, in_wrapper).expect("flatten applies");
+            }
+        }
         // otherwise a random applicable combinator (retry a few times)
         for _ in 0..40 {
             let (_, c) = SPELLINGS[self.rng.random_range(0..22)];
@@ -344,6 +359,9 @@ impl<'a> CG<'a> {
         if let Some(op) = self.try_comb(Comb::Then, cur, allow_cap, false, in_wrapper) {
             return op;
         }
+        if let Some(op) = self.try_comb(Comb::Map, cur, allow_cap, false, in_wrapper) {
+            return op;
+        }
         let t = self.any_ty(1);
         let o = self.cb(cur, &t, allow_cap);
         self.plain(Comb::Then, vec![o], t)
@@ -355,6 +373,9 @@ impl<'a> CG<'a> {
             return self.try_wrapper(c, cur, in_wrapper);
         }
         let sync = self.fam == Family::Sync;
+        if matches!(cur, Ty::Fut(_) | Ty::Stream(_)) {
+            return self.try_future_comb(c, cur, allow_cap, in_wrapper);
+        }
         // a hoisted *value* (not a Copy callback) cannot be moved out of a wrapper closure that may
         // be called repeatedly
         let allow_cap_val = allow_cap && !in_wrapper;
@@ -598,7 +619,7 @@ impl<'a> CG<'a> {
                     cands.push(("clone()".into(), (**u).clone()));
                 }
             }
-            Ty::Unit | Ty::Ck | Ty::Ns | Ty::Mv => {}
+            Ty::Unit | Ty::Ck | Ty::Ns | Ty::Mv | Ty::Fut(_) | Ty::Stream(_) => {}
         }
         if cands.is_empty() {
             return None;
@@ -609,6 +630,9 @@ impl<'a> CG<'a> {
 
     /// `X >>> inner <<<` on `cur`
     fn try_wrapper(&mut self, c: Comb, cur: &Ty, _in_wrapper: bool) -> Option<COp> {
+        if matches!(cur, Ty::Fut(_) | Ty::Stream(_)) {
+            return self.try_future_wrapper(c, cur);
+        }
         // (parameter type of the closure, goal type of the body, resulting type as a function of the body's type)
         let sync = self.fam == Family::Sync;
         let (param, goal, out): (Ty, Option<Ty>, Box<dyn Fn(&Ty) -> Ty>) = match (c, cur) {
@@ -677,6 +701,220 @@ impl<'a> CG<'a> {
         Some(op)
     }
 
+    fn acb(&mut self, a: &Ty, b: &Ty) -> String {
+        let id = self.id();
+        format!("acb::<{}, {}>({})", a.name(), b.name(), id)
+    }
+
+    /// edges on futures and streams (async macros, real futures)
+    fn try_future_comb(&mut self, c: Comb, cur: &Ty, allow_cap: bool, _in_wrapper: bool) -> Option<COp> {
+        // a future of a future / stream of streams can only be flattened
+        if let Ty::Fut(t) | Ty::Stream(t) = cur {
+            if matches!(**t, Ty::Fut(_) | Ty::Stream(_)) && c != Comb::Flatten {
+                return None;
+            }
+        }
+        match (c, cur) {
+            // ---------------------------------------------------------------- futures
+            (Comb::Map, Ty::Fut(t)) => {
+                if rb(self.rng, 0.2) {
+                    // map to a future; the next operator can only be `^^>` (flatten)
+                    let u = self.any_ty(1);
+                    let o = self.acb(t, &u);
+                    return Some(self.plain(Comb::Map, vec![o], Ty::Fut(Ty::Fut(u.b()).b())));
+                }
+                let u = self.any_ty(1);
+                let o = self.cb(t, &u, allow_cap);
+                Some(self.plain(c, vec![o], Ty::Fut(u.b())))
+            }
+            (Comb::Flatten, Ty::Fut(t)) => match &**t {
+                Ty::Fut(u) => Some(self.plain(c, vec![], Ty::Fut(u.clone()))),
+                _ => None,
+            },
+            (Comb::Inspect, Ty::Fut(t)) => {
+                if matches!(**t, Ty::Fut(_)) {
+                    return None;
+                }
+                let id = self.id();
+                let o = self.maybe_cap(format!("ins::<{}>({})", t.name(), id), allow_cap);
+                Some(self.plain(c, vec![o], cur.clone()))
+            }
+            (Comb::Dot, Ty::Fut(t)) => {
+                if matches!(**t, Ty::Fut(_)) {
+                    return Some(self.plain(Comb::Dot, vec!["flatten()".into()], (**t).clone()));
+                }
+                let mut cands: Vec<(String, Ty)> = Vec::new();
+                let u = self.any_ty(1);
+                cands.push((format!("then({})", self.acb(t, &u)), Ty::Fut(u.b())));
+                if let Ty::Res(x) = &**t {
+                    let y = self.any_ty(1);
+                    let id = self.id();
+                    cands.push((format!("map_ok(cbf::<{}, {}>({}))", x.name(), y.name(), id), Ty::Fut(Ty::Res(y.b()).b())));
+                    let id2 = self.id();
+                    cands.push((format!("unwrap_or_else(cbf::<i64, {}>({}))", x.name(), id2), Ty::Fut(x.clone())));
+                }
+                let (m, out) = self.pick(&cands);
+                Some(self.plain(Comb::Dot, vec![m], out))
+            }
+            (Comb::Then, Ty::Fut(t)) => {
+                if matches!(**t, Ty::Fut(_)) {
+                    return None;
+                }
+                let u = self.any_ty(1);
+                let id = self.id();
+                Some(self.plain(c, vec![format!("fthen::<{}, {}, _>({})", t.name(), u.name(), id)], Ty::Fut(u.b())))
+            }
+            (Comb::AndThen, Ty::Fut(t)) => match &**t {
+                Ty::Res(x) => {
+                    let y = Ty::Res(self.any_ty(1).b());
+                    let o = self.acb(x, &y);
+                    Some(self.plain(c, vec![o], Ty::Fut(y.b())))
+                }
+                _ => None,
+            },
+            (Comb::OrElse, Ty::Fut(t)) => match &**t {
+                Ty::Res(_) => {
+                    let o = self.acb(&Ty::I64, t);
+                    Some(self.plain(c, vec![o], cur.clone()))
+                }
+                _ => None,
+            },
+            (Comb::MapErr, Ty::Fut(t)) => match &**t {
+                Ty::Res(_) => {
+                    let o = self.cb(&Ty::I64, &Ty::I64, allow_cap);
+                    Some(self.plain(c, vec![o], cur.clone()))
+                }
+                _ => None,
+            },
+            // ---------------------------------------------------------------- streams
+            (Comb::Map, Ty::Stream(t)) => {
+                if rb(self.rng, 0.2) {
+                    // map every item to a stream, then flatten
+                    let u = self.any_ty(0);
+                    let id = self.id();
+                    return Some(self.plain(c, vec![format!("to_stream::<{}, {}>({})", t.name(), u.name(), id)], Ty::Stream(Ty::Stream(u.b()).b())));
+                }
+                let u = self.any_ty(1);
+                let o = self.cb(t, &u, allow_cap);
+                Some(self.plain(c, vec![o], Ty::Stream(u.b())))
+            }
+            (Comb::Flatten, Ty::Stream(t)) => match &**t {
+                Ty::Stream(u) => Some(self.plain(c, vec![], Ty::Stream(u.clone()))),
+                _ => None,
+            },
+            (_, Ty::Stream(t)) if matches!(**t, Ty::Stream(_)) => None,
+            (Comb::Filter, Ty::Stream(t)) => {
+                let id = self.id();
+                Some(self.plain(c, vec![format!("apred::<{}>({})", t.name(), id)], cur.clone()))
+            }
+            (Comb::FilterMap, Ty::Stream(t)) => {
+                let u = self.any_ty(1);
+                let o = self.acb(t, &Ty::Opt(u.clone().b()));
+                Some(self.plain(c, vec![o], Ty::Stream(u.b())))
+            }
+            (Comb::Enumerate, Ty::Stream(t)) => Some(self.plain(c, vec![], Ty::Stream(Ty::Tup(Ty::Usize.b(), t.clone()).b()))),
+            (Comb::Inspect, Ty::Stream(t)) => {
+                let id = self.id();
+                let o = self.maybe_cap(format!("ins::<{}>({})", t.name(), id), allow_cap);
+                Some(self.plain(c, vec![o], cur.clone()))
+            }
+            (Comb::Fold, Ty::Stream(t)) => {
+                let acc = self.any_ty(1);
+                let i = self.altv(&acc, allow_cap);
+                let id = self.id();
+                Some(self.plain(c, vec![i, format!("acb2::<{}, {}, {}>({})", acc.name(), t.name(), acc.name(), id)], Ty::Fut(acc.b())))
+            }
+            (Comb::TryFold, Ty::Stream(t)) => match &**t {
+                Ty::Res(x) => {
+                    let acc = self.any_ty(1);
+                    let i = self.altv(&acc, allow_cap);
+                    let id = self.id();
+                    let r = Ty::Res(acc.clone().b());
+                    Some(self.plain(c, vec![i, format!("acb2::<{}, {}, {}>({})", acc.name(), x.name(), r.name(), id)], Ty::Fut(r.b())))
+                }
+                _ => None,
+            },
+            (Comb::Chain, Ty::Stream(t)) => {
+                let id = self.id();
+                Some(self.plain(c, vec![format!("sval::<{}>({})", t.name(), id)], cur.clone()))
+            }
+            (Comb::Zip, Ty::Stream(t)) => {
+                let u = self.any_ty(0);
+                let id = self.id();
+                Some(self.plain(c, vec![format!("sval::<{}>({})", u.name(), id)], Ty::Stream(Ty::Tup(t.clone(), u.b()).b())))
+            }
+            (Comb::Collect, Ty::Stream(t)) => {
+                let out = Ty::Vec(t.clone());
+                Some(self.plain(c, vec![out.name()], Ty::Fut(out.b())))
+            }
+            (Comb::Unzip, Ty::Stream(t)) => match &**t {
+                Ty::Tup(a, b) => {
+                    let out = Ty::Tup(Ty::Vec(a.clone()).b(), Ty::Vec(b.clone()).b());
+                    Some(self.plain(c, vec![a.name(), b.name(), format!("Vec<{}>", a.name()), format!("Vec<{}>", b.name())], Ty::Fut(out.b())))
+                }
+                _ => None,
+            },
+            (Comb::Dot, Ty::Stream(t)) => {
+                let cands: Vec<(String, Ty)> = vec![("take(2)".into(), cur.clone()), ("skip(1)".into(), cur.clone()), ("count()".into(), Ty::Fut(Ty::Usize.b())), (format!("collect::<Vec<{}>>()", t.name()), Ty::Fut(Ty::Vec(t.clone()).b()))];
+                let (m, out) = self.pick(&cands);
+                Some(self.plain(Comb::Dot, vec![m], out))
+            }
+            _ => None,
+        }
+    }
+
+    /// `X >>> inner <<<` over a future or a stream: the body sees a plain value
+    fn try_future_wrapper(&mut self, c: Comb, cur: &Ty) -> Option<COp> {
+        // (closure parameter, goal of the body, result type given the body's type)
+        let nested = |t: &Ty| matches!(t, Ty::Fut(_) | Ty::Stream(_));
+        let (param, goal, out): (Ty, Option<Ty>, Box<dyn Fn(&Ty) -> Ty>) = match (c, cur) {
+            (Comb::Map, Ty::Fut(t)) if !nested(t) => ((**t).clone(), None, Box::new(|b: &Ty| Ty::Fut(b.clone().b()))),
+            (Comb::Map, Ty::Stream(t)) if !nested(t) => ((**t).clone(), None, Box::new(|b: &Ty| Ty::Stream(b.clone().b()))),
+            (Comb::Inspect, Ty::Fut(t)) | (Comb::Inspect, Ty::Stream(t)) if !nested(t) => {
+                let cur2 = cur.clone();
+                (Ty::Ref(t.clone()), Some(Ty::Unit), Box::new(move |_| cur2.clone()))
+            }
+            (Comb::AndThen, Ty::Fut(t)) => match &**t {
+                Ty::Res(x) => {
+                    let g = Ty::Fut(Ty::Res(self.any_ty(1).b()).b());
+                    let g2 = g.clone();
+                    ((**x).clone(), Some(g), Box::new(move |_| g2.clone()))
+                }
+                _ => return None,
+            },
+            (Comb::OrElse, Ty::Fut(t)) => match &**t {
+                Ty::Res(_) => {
+                    let cur2 = cur.clone();
+                    (Ty::I64, Some(cur.clone()), Box::new(move |_| cur2.clone()))
+                }
+                _ => return None,
+            },
+            (Comb::MapErr, Ty::Fut(t)) => match &**t {
+                Ty::Res(_) => {
+                    let cur2 = cur.clone();
+                    (Ty::I64, Some(Ty::I64), Box::new(move |_| cur2.clone()))
+                }
+                _ => return None,
+            },
+            (Comb::Filter, Ty::Stream(t)) if !nested(t) => {
+                let cur2 = cur.clone();
+                (Ty::Ref(t.clone()), Some(Ty::Fut(Ty::Bool.b())), Box::new(move |_| cur2.clone()))
+            }
+            (Comb::FilterMap, Ty::Stream(t)) if !nested(t) => {
+                let u = self.any_ty(1);
+                let g = Ty::Fut(Ty::Opt(u.clone().b()).b());
+                ((**t).clone(), Some(g), Box::new(move |_| Ty::Stream(u.clone().b())))
+            }
+            _ => return None,
+        };
+        self.depth += 1;
+        let len = self.rng.random_range(0..3usize);
+        let (inner, body_ty) = self.walk(&param, len, goal.as_ref(), true);
+        self.depth -= 1;
+        let out_ty = out(&body_ty);
+        Some(COp { comb: c, alt: false, deferred: false, operands: vec![], inner: Some(inner), closed: true, out: out_ty })
+    }
+
     /// a chain of about `len` operators from `from`; if `goal` is given the chain ends in that type
     /// (a final typed `->` converts anything, so construction never needs rejection)
     pub fn walk(&mut self, from: &Ty, len: usize, goal: Option<&Ty>, in_wrapper: bool) -> (Vec<COp>, Ty) {
@@ -686,6 +924,15 @@ impl<'a> CG<'a> {
             let op = self.step(&cur, in_wrapper);
             cur = op.out.clone();
             ops.push(op);
+        }
+        // a goal that is a future: reach its output type, then `-> ready`
+        if let Some(Ty::Fut(gi)) = goal {
+            if !matches!(cur, Ty::Fut(_)) {
+                let (mut more, _) = self.walk_to(&cur, gi);
+                ops.append(&mut more);
+                ops.push(self.plain(Comb::Then, vec!["ready".into()], Ty::Fut(gi.clone())));
+                return (ops, Ty::Fut(gi.clone()));
+            }
         }
         // a reference cannot leave a closure body
         if let Some(g) = goal {
@@ -734,13 +981,20 @@ impl<'a> CG<'a> {
     }
 }
 
+impl<'a> CG<'a> {
+    /// operators converting `cur` into `goal` (no extra random steps)
+    fn walk_to(&mut self, cur: &Ty, goal: &Ty) -> (Vec<COp>, Ty) {
+        self.walk(cur, 0, Some(goal), true)
+    }
+}
+
 fn self_ins(t: &Ty, id: u32) -> String {
     format!("ins::<{}>({})", t.name(), id)
 }
 
 fn default_ok(t: &Ty) -> bool {
     match t {
-        Ty::Res(_) | Ty::Iter(_) | Ty::Ref(_) => false,
+        Ty::Res(_) | Ty::Iter(_) | Ty::Ref(_) | Ty::Fut(_) | Ty::Stream(_) => false,
         Ty::Opt(_) | Ty::Vec(_) => true,
         Ty::Tup(a, b) => default_ok(a) && default_ok(b),
         _ => true,
@@ -749,7 +1003,7 @@ fn default_ok(t: &Ty) -> bool {
 
 fn clone_ok(t: &Ty) -> bool {
     match t {
-        Ty::Iter(_) | Ty::Ref(_) | Ty::Ns | Ty::Mv => false,
+        Ty::Iter(_) | Ty::Ref(_) | Ty::Ns | Ty::Mv | Ty::Fut(_) | Ty::Stream(_) => false,
         Ty::Opt(u) | Ty::Res(u) | Ty::Vec(u) => clone_ok(u),
         Ty::Tup(a, b) => clone_ok(a) && clone_ok(b),
         _ => true,
@@ -850,7 +1104,7 @@ fn ref_apply(prev: String, op: &COp, fam: Family) -> String {
         }
         Comb::Inspect => match fam {
             Family::Sync => format!("inspect_ref({}, {})", arg0(&op.inner), prev),
-            Family::AsyncClosed => method("inspect", arg0(&op.inner)),
+            Family::AsyncClosed | Family::AsyncReal => method("inspect", arg0(&op.inner)),
         },
     };
     for x in &op.operands {
